@@ -737,6 +737,42 @@ func c08wire(c *runner.Ctx, i int) {
 	}
 	atomic.StoreInt32(&start, 1)
 	parked := waitParked(first + 24)
+	// ... several times over: a few parked requests are answered (their ids come back) and the next crowd arrives
+	next := first + 24
+	for round := 0; round < 6; round++ {
+		mu.Lock()
+		nrel := 1 + (round+i)%3
+		if nrel > len(held) {
+			nrel = len(held)
+		}
+		rel, relc := append([]*fakenode.Req{}, held[:nrel]...), append([]*fakenode.ServerConn{}, heldConn[:nrel]...)
+		held, heldConn = held[nrel:], heldConn[nrel:]
+		for k, rq := range rel {
+			delete(inflight[relc[k]], int(rq.Header.Stream))
+		}
+		mu.Unlock()
+		for k, rq := range rel {
+			relc[k].ReplyVoid(rq)
+		}
+		time.Sleep(time.Millisecond)
+		var go2 int32
+		for k := 0; k < 16; k++ {
+			wg.Add(1)
+			go func(k int) {
+				for atomic.LoadInt32(&go2) == 0 {
+					runtime.Gosched()
+				}
+				hold(k)
+			}(next + k)
+		}
+		atomic.StoreInt32(&go2, 1)
+		next += 16
+		time.Sleep(3 * time.Millisecond)
+	}
+	time.Sleep(20 * time.Millisecond)
+	mu.Lock()
+	parked = len(held)
+	mu.Unlock()
 	// the connection is full (its heartbeat may hold one of the ids): more requests are refused, and refused again
 	refused := 0
 	for k := 0; k < 6; k++ {
